@@ -1,0 +1,12 @@
+//go:build verif
+
+package verifapi
+
+import "github.com/deepteams/webp/internal/lossless"
+
+// FillMatchEnds is lossless.VerifFillMatchEnds: the per-position matches the
+// worker body of the parallel hash-chain pass computes over the whole position
+// range, and over short ranges ending at the given positions.
+func FillMatchEnds(argb []uint32, xsize, ysize, quality int, ends []int, span int) ([]uint32, [][]uint32, bool) {
+	return lossless.VerifFillMatchEnds(argb, xsize, ysize, quality, ends, span)
+}
